@@ -116,7 +116,8 @@ CLAIMS['C02'] = dict(
        'orthonormal rows and the weights travel left, in eigen and SVD mode (the rule that found the SVD-mode defect); the three '
        'm-vs-n selectors of matrix_svd agree on every ordering; pivot, norm core and sweep start coincide; tail energies (sigma^2) '
        'are compared with e^2 in one unit and, in the stabilised mode, at one power-of-two scale, with e rescaled by the norm, '
-       'and are not formed as a difference of prefix sums; rank = max(1, min(cap, len - dropped)) on a bounded grid '
+       'and are not formed as a difference of prefix sums; the caller\'s cap (Python or NumPy number) is the object that reaches '
+       'every factorisation; rank = max(1, min(cap, len - dropped)) on a bounded grid '
        'and the droppable tail is the longest with energy <= e^2; e and r reach every factorisation call and the final rounding '
        'of add_many; results are well formed with the input mode sizes.',
   note='Not decided: the inequality ||Y-Z|| <= e||Y||, quasi-optimal ranks as values, behaviour exactly at a threshold, rounding. '
@@ -144,7 +145,8 @@ CLAIMS['C16'] = dict(
   text='Decides: on every return path of core_stab, mul_scalar, norm, accuracy, orthogonalize (every pivot), truncate and '
        'optima_tt_beam in their stabilised modes (d = 2,3) the scale of the returned mantissas plus the returned exponent equals '
        'the scale of the input, exactly, as linear forms in the fresh exponent symbols; log2 is guarded by the threshold test; '
-       'the exponent is an integer; 2**(p1-p2) is dominated by both saturation guards; orthogonalize rescales at every step.',
+       'the exponent is an integer; 2**(p1-p2) is dominated by both saturation guards; orthogonalize and mul_scalar rescale at '
+       'every step of their core loops (the core_stab call depends on use_stab only).',
   note='Not decided: that mantissas stay in range for thousands of dimensions, rounding, coincidence of stabilised and plain '
        'values. Ledger axioms for qr/rq/svd/eigh are trusted.')
 
@@ -163,7 +165,8 @@ CLAIMS['C08'] = dict(
   text='Decides a narrow structural part: maxvol rejects n <= r and accepts tall input, maxvol_rect rejects inconsistent '
        'dr_min/dr_max, _maxvol clamps before an exhaustive dispatch; maxvol returns (int [r], [n, r]) and the LU / triangular '
        'solves / rank-one update / identity rows are dimension consistent; in maxvol_rect a selected row is masked before F is '
-       're-masked in the same iteration and the maxvol rows are masked first; the pivot division is behind the |B[i,j]| <= e '
+       're-masked in the same iteration and the maxvol rows are masked first; the carried squared row norms are updated to '
+       'F - l v**2 (polynomial identity); the pivot division is behind the |B[i,j]| <= e '
        'break and the Sherman-Morrison factor divides by 1 + squared norm.',
   note='Not decided (the numerical core): A = B A[I], max|B| <= e, row-norm bound, distinctness as a value fact. The column '
        'growth of maxvol_rect is widened (shape of B only partly typed).')
